@@ -908,7 +908,7 @@ impl<W: io::Write> Formatter<W> for Json {
             origin.asn,
             origin.prefix.addr(), origin.prefix.prefix_len(),
             origin.prefix.resolved_max_len(),
-            info.tal_name().unwrap_or("N/A"),
+            json_str(info.tal_name().unwrap_or("N/A")),
         )
     }
 
@@ -939,7 +939,7 @@ impl<W: io::Write> Formatter<W> for Json {
             key.asn,
             key.key_identifier,
             key.key_info,
-            info.tal_name().unwrap_or("N/A"),
+            json_str(info.tal_name().unwrap_or("N/A")),
         )
     }
 
@@ -980,7 +980,8 @@ impl<W: io::Write> Formatter<W> for Json {
         }
 
         write!(
-            target, "], \"ta\": \"{}\" }}", info.tal_name().unwrap_or("N/A")
+            target, "], \"ta\": \"{}\" }}",
+            json_str(info.tal_name().unwrap_or("N/A"))
         )
     }
 
@@ -1250,7 +1251,7 @@ impl<W: io::Write> Formatter<W> for Slurm {
         write!(target,
             "        \"comment\": \"{}\"\
             \n      }}",
-            info.tal_name().unwrap_or("N/A")
+            json_str(info.tal_name().unwrap_or("N/A"))
         )
     }
 
@@ -1292,7 +1293,7 @@ impl<W: io::Write> Formatter<W> for Slurm {
         write!(target, "\",\
             \n        \"comment\": \"{}\"\
             \n      }}",
-            info.tal_name().unwrap_or("N/A")
+            json_str(info.tal_name().unwrap_or("N/A"))
         )
     }
 
@@ -1370,7 +1371,7 @@ impl<W: io::Write> Formatter<W> for Slurm2 {
         write!(target,
             "        \"comment\": \"{}\"\
             \n      }}",
-            info.tal_name().unwrap_or("N/A")
+            json_str(info.tal_name().unwrap_or("N/A"))
         )
     }
 
@@ -1412,7 +1413,7 @@ impl<W: io::Write> Formatter<W> for Slurm2 {
         write!(target, "\",\
             \n        \"comment\": \"{}\"\
             \n      }}",
-            info.tal_name().unwrap_or("N/A")
+            json_str(info.tal_name().unwrap_or("N/A"))
         )
     }
 
@@ -1453,7 +1454,7 @@ impl<W: io::Write> Formatter<W> for Slurm2 {
         write!(target,
             "\n        ],\
             \n        \"comment\": \"{}\"\
-            \n      }}", info.tal_name().unwrap_or("N/A"))
+            \n      }}", json_str(info.tal_name().unwrap_or("N/A")))
     }
 
     fn after_aspas(
